@@ -314,8 +314,16 @@ class DocGen:
                 vals = [v for v in range(lo, hi + 1)] if w <= 4 else sorted({lo, hi, 0, 1} | {r.randrange(lo, hi + 1) for _ in range(10)})
                 keep = [v for v in vals if r.random() < 0.8] or vals[:1]
                 return ir.PType(tname, kind, enc, unit, tuple((v, f"{pname}_L{i}") for i, v in enumerate(keep)))
-            enc = ir.FloatEnc(32, "IEEE754", r.random() < 0.3)
-            return ir.PType(tname, kind, enc, unit, ((0.0, "ZERO"), (1.0, "ONE"), (-2.5, "NEG"), (1e10, "BIG")))
+            if r.random() < 0.5:
+                enc = ir.FloatEnc(32, "IEEE754", r.random() < 0.3)
+                return ir.PType(tname, kind, enc, unit, ((0.0, "ZERO"), (1.0, "ONE"), (-2.5, "NEG"), (1e10, "BIG")))
+            # string-encoded enumeration: fixed-size buffer holding one of a few equally long texts
+            charset = r.choice(SINGLE_BYTE + (MULTI_BYTE + ["UTF-16", "UTF-32"] if self.p.multi_byte_strings else []))
+            bo = r.choice([ir.MSB, ir.LSB]) if charset in ("UTF-16", "UTF-32") else None
+            texts = r.choice([("ON ", "OFF", "MID"), ("A", "B", "C", "D"), ("LOW_", "HIGH")])
+            nbits = 8 * len(ref.encode_text(texts[0], charset, bo))
+            enc = ir.StrEnc(charset, nbits, None, None, bo)
+            return ir.PType(tname, kind, enc, unit, tuple((tx, f"{pname}_{tx.strip()}") for tx in texts))
         if kind == "string":
             return ir.PType(tname, kind, self.string_enc(cx), unit)
         if kind == "binary":
@@ -605,6 +613,10 @@ class PacketBuilder:
         L = ref.length_of(e.length, env)
         if L < 0:
             raise ref.NegativeLength(L)
+        if t.kind == "enumerated" and isinstance(e, ir.StrEnc):
+            if r.random() < 0.9:
+                return bits.bitstr(ref.encode_text(r.choice([v for v, _ in t.enumeration]), e.charset, e.byte_order))
+            return "".join(r.choice("01") for _ in range(L))
         if L > self.max_bits:
             raise ref.ModelError("too-long-for-workload", str(L))
         if isinstance(e, ir.BinEnc):
